@@ -15,6 +15,7 @@ INVARIANT LawWrongMsgOnlyFillsI
 INVARIANT LawMonotoneI
 INVARIANT LawDuplicateI
 INVARIANT LawSingleI
+INVARIANT LawAlwaysRealisableI
 INVARIANT LawBoundedI
 INVARIANT LawFullCreditHitI
 INVARIANT LawCreditMonotoneI
